@@ -15,7 +15,7 @@ from mc.space import explore
 from mc.streamspace import A, A2, BIG, C, E, G, G_X, N_A, N_X
 
 PROP = "C04"
-RULE = ("streams {small, nested, long, empty, zero} raw and gzip x EVERY byte cut 0..len x 3 read paths; plus the real writers "
+RULE = ("streams {small, nested, long, empty, zero} raw and gzip x EVERY byte cut 0..len x 3 read paths (bigframe, one 70 kB frame: every cut of the gzip image, raw cuts near frame boundaries + every 251st); plus the real writers "
         "(RecordStreamWriter, StreamWriter adapter, RecordStreamWriter over GzipFile) on a logging device that fails (raise) or "
         "short-writes at EVERY write-call index x k accepted bytes x {crash, close afterwards}; non-trivial = image differs from "
         "the complete stream; distinct = distinct (stream, cut/fault) literal")
@@ -40,6 +40,8 @@ def stream_specs(tier):
         "nested": [N_A, G, BIG, N_X, G_X, C, E, A2],
         "long": long_specs(200 if tier == "thorough" else 20),
         "empty": [],
+        # one frame larger than 64 KiB and larger than the whole compressed file
+        "bigframe": [A, rs("l/huge", [["string", "s"], ["varint", "i"]], ["S('x', 70000)", "7"]), C],
     }
 
 
@@ -290,6 +292,15 @@ def count_calls(name, writer):
 
 def cases(tier):
     names = ["small", "nested", "long", "empty", "zero"]
+    # bigframe: every cut of the compressed image; of the raw image every cut within 48 bytes of a frame boundary and every
+    # 251st position in between (the interior of one 70000-character payload)
+    s = build_stream("bigframe")
+    ends = [0] + [e for e, _ in s["frames"]]
+    near = {c for e in ends for c in range(max(0, e - 48), min(len(s["raw"]), e + 48) + 1)} | set(range(0, len(s["raw"]) + 1, 251))
+    for c in sorted(near):
+        yield {"kind": "cut", "stream": "bigframe", "c": c}
+    for c in range(len(s["gz"]) + 1):
+        yield {"kind": "cut", "stream": "bigframe", "gz": True, "c": c}
     for name in names:
         s = build_stream(name)
         for c in range(len(s["raw"]) + 1):
@@ -319,8 +330,9 @@ def main(tier, seed, workers=None):
     TIER[0] = tier
     run = Run(PROP, "fault_enumeration", tier, seed, RULE)
     run.assumptions = ["gzip completeness is judged against zlib.decompressobj on the truncated bytes",
-                       "one fault per execution (deviation bound 1); after a raised fault the caller stops or closes"]
-    for n in ("small", "nested", "long", "empty", "zero"):
+                       "one fault per execution (deviation bound 1); after a raised fault the caller stops or closes",
+                       "raw cuts of the 70 kB frame are taken near frame boundaries and at every 251st byte of the payload interior, not at every byte"]
+    for n in ("small", "nested", "long", "empty", "zero", "bigframe"):
         build_stream(n)
     explore(run, cases(tier), run_case, workers)
     run.extra["streams"] = {n: {"raw_len": len(s["raw"]), "gz_len": len(s["gz"]), "frames": len(s["frames"])} for n, s in _STREAMS.items()}
